@@ -28,6 +28,9 @@ DIRECTIVES = [
     (["#define LONG(a) \\", "    a + 1"], "#define LONG(a)     a + 1"),
     (["  #  define SPACED 3"], "#define SPACED 3"),
     (["#define TRAIL(a) a + 2 \\", ""], "#define TRAIL(a) a + 2"),
+    (["#define SUM3(x, y, z) \\", "  ((x) + \\", "  (y) + (z))"], "#define SUM3(x, y, z) ((x) +   (y) + (z))"),
+    (["#if defined(A) && \\", "    defined(B) && \\", "    defined(C) && \\", "    D > 1"],
+     "#if defined(A) &&     defined(B) &&     defined(C) &&     D > 1"),
 ]
 CPP_PREFIX = "Cpp_"
 
